@@ -948,7 +948,9 @@ class Check(PropertyCheck):
         nir = 0
         for i, o in zip(iidx, irouts):
             self.count('unit_ir_leg')
-            d = self.compare_unit(cases[i], impl[i], dec(o))
+            mo = dec(o)
+            d = ('the interpreter is stuck on the translated code (a value of the wrong kind, a raising primitive or no fuel)', impl[i]) \
+                if mo == [-998] else self.compare_unit(cases[i], impl[i], mo)
             if d is not None:
                 nir += 1
                 if nir <= 10:
